@@ -376,11 +376,11 @@ func c04Alias(c *Ctx) {
 	const rule = "ALIAS"
 	// reference table from the documentation: function aliases and domain-key aliases
 	ref := map[string]string{
-		"Function.Name|dport":  "port",
-		"Function.Name|dip":    "ip",
-		"Param.Key|":           "suffix",
-		"Param.Key|domain":     "suffix",
-		"Param.Key|contains":   "keyword",
+		"Function.Name|dport": "port",
+		"Function.Name|dip":   "ip",
+		"Param.Key|":          "suffix",
+		"Param.Key|domain":    "suffix",
+		"Param.Key|contains":  "keyword",
 	}
 	got := map[string]string{}
 	var gotPos = map[string]string{}
